@@ -90,3 +90,16 @@ Definition wal_append_ok (t : list fsop) : bool :=
   | [WriteMem _; FsyncMem] => true            (* no room for a sentinel *)
   | _ => false
   end.
+
+(* a put of a chunked document (or an update that re-chunks) issues several appends in a row:
+   (record write, fsync, optional sentinel write)* ; each of them is one wal_append *)
+Fixpoint wal_appends_ok (t : list fsop) : bool :=
+  match t with
+  | [] => true
+  | WriteMem _ :: FsyncMem :: r =>
+      match r with
+      | WriteMem _ :: r' => wal_appends_ok r' || wal_appends_ok r
+      | _ => wal_appends_ok r
+      end
+  | _ => false
+  end.
